@@ -34,6 +34,7 @@ type c11Job struct {
 	Banned   []int    `json:"banned"`   // initially banned servers
 	Outcomes []string `json:"outcomes"` // per attempt
 	Perm     int      `json:"perm"`     // shuffle answer selector
+	List     string   `json:"list"`     // what a rogue authorized server puts into the list of a successful reply ("" = one entry per configured server)
 }
 
 func c11Client(servers []scriptedServer, banned map[int]bool, energy *string) (*cliWorld, *netHub, error) {
@@ -227,7 +228,7 @@ func c11Round(j c11Job) *jobReport {
 		}
 		w.Cleanup()
 	}()
-	cfgDesc := fmt.Sprintf("servers=%d banned=%v outcomes=%v perm=%d", j.Servers, j.Banned, j.Outcomes, j.Perm)
+	cfgDesc := fmt.Sprintf("servers=%d banned=%v outcomes=%v perm=%d list=%q", j.Servers, j.Banned, j.Outcomes, j.Perm, j.List)
 	gca := key("G1")
 	dev := w.Cfg.Key.Pub
 	attempt := 0
@@ -236,6 +237,25 @@ func c11Round(j c11Job) *jobReport {
 	var list []server.AuthorizedServer
 	for i, s := range servers {
 		list = append(list, signedServer(s.Name, i == len(servers)-1 && len(servers) > 1, s.Addr, s.Port, gca.Priv))
+	}
+	// A rogue (but authorized) server chooses which genuine GCA-signed entries it lists and in which order.
+	extra := mkScripted("SX", 9)
+	xe := func(b bool) server.AuthorizedServer { return signedServer(extra.Name, b, extra.Addr, extra.Port, gca.Priv) }
+	switch j.List {
+	case "xban-xauth":
+		list = append(list, xe(true), xe(false))
+	case "xauth-xban":
+		list = append(list, xe(false), xe(true))
+	case "xban-alone-first":
+		list = append([]server.AuthorizedServer{xe(true)}, append(list, xe(false))...)
+	case "kban-kauth":
+		last := servers[len(servers)-1]
+		list = append(list[:len(list)-1], signedServer(last.Name, true, last.Addr, last.Port, gca.Priv), signedServer(last.Name, false, last.Addr, last.Port, gca.Priv))
+	}
+	hub.TCP[extra.tcpAddr()] = func() (net.Conn, error) {
+		contacted = append(contacted, extra.Name)
+		attempt++
+		return nil, fmt.Errorf("connection refused")
 	}
 	for _, s := range servers {
 		s := s
@@ -380,6 +400,14 @@ func c11Round(j c11Job) *jobReport {
 		}
 		seenC[n] = true
 	}
+	if ok && succeeded {
+		// every ban the accepted reply carried is knowledge from now on
+		for _, e := range list {
+			if e.Banned {
+				knownBanned[e.PublicKey] = true
+			}
+		}
+	}
 	if !checkAfter("after-round") {
 		return rep
 	}
@@ -399,7 +427,7 @@ func c11Round(j c11Job) *jobReport {
 	}
 	// a later round is attempted, and it contacts no server known to be banned
 	bannedBeforeSecond := map[string]bool{}
-	for _, sv := range servers {
+	for _, sv := range append(append([]scriptedServer{}, servers...), extra) {
 		if knownBanned[sv.Key.Pub] {
 			bannedBeforeSecond[sv.Name] = true
 		}
@@ -531,6 +559,19 @@ func init() {
 			jobs = append(jobs, c11Job{Part: "rounds", Servers: servers, Outcomes: []string{"refused", "reset", "short", "badsig", "tiny"}})
 			jobs = append(jobs, c11Job{Part: "rounds", Servers: servers, Outcomes: []string{"refused", "reset", "short", "badsig", "success"}})
 			jobs = append(jobs, c11Job{Part: "rounds", Servers: servers, Outcomes: []string{"tiny", "tiny", "tiny", "success"}})
+		}
+		for servers := 1; servers <= 3; servers++ {
+			for _, l := range []string{"xban-xauth", "xauth-xban", "xban-alone-first", "kban-kauth"} {
+				if l == "kban-kauth" && servers == 1 {
+					continue
+				}
+				for pm := 0; pm < servers; pm++ {
+					jobs = append(jobs, c11Job{Part: "rounds", Servers: servers, Outcomes: []string{"success"}, Perm: pm, List: l})
+					if servers > 1 {
+						jobs = append(jobs, c11Job{Part: "rounds", Servers: servers, Outcomes: []string{"badsig", "success"}, Perm: pm, List: l})
+					}
+				}
+			}
 		}
 		run.Assumption("delays are not modelled (virtual time); a hung dial is represented by refusal/reset; the Go map iteration order inside the client is not controlled, the harness observes which server was contacted")
 		return runJobCheck(run, "c11", jobs, "(a) reply shapes: every length 0..800, 1000, 4096, 65535 as zeros, as the genuine reply cut with rewritten prefix, as a short read, and as bodies of 0x00/0xFF/own-key bytes correctly timestamped and signed with the contacted server's real key, plus every server-list region length 0..150 signed by the real key, all against the real parser; (b) every sequence of per-attempt outcomes {refused, reset, short read, bad signature, tiny reply, success} for 1..3 configured servers with none/one/all banned and several shuffle answers, through the real sync round, followed by a send-loop tick, a second round and a client restart; distinct = (shape class, verdict) and (round result, attempts) classes")
